@@ -44,6 +44,9 @@ class Adapter(object):
     def n_fixed(self, obj):
         return None
 
+    # how a user duplicates the object (None: no supported way)
+    copy = None
+
 
 class ErrAdapter(Adapter):
     def __init__(self, code):
@@ -65,16 +68,29 @@ class ErrAdapter(Adapter):
         pw = obj.compute_pointwise_ll(list(x), self.ybar, self.y)
         s, g = obj.compute_sensitivities(list(x), self.ybar, self.S, self.y)
         smp = obj.sample(list(x), self.ybar, n_samples=2, seed=3)
-        return {'ll': ll, 'pw': pw, 'score': s, 'grad': g, 'sample': smp}
+        # a rejected value (first free parameter negative): same answer as the
+        # unfixed model, restricted to the free parameters
+        bad = [-abs(x[0])] + list(x[1:])
+        sb, gb = obj.compute_sensitivities(bad, self.ybar, self.S, self.y)
+        return {'ll': ll, 'pw': pw, 'score': s, 'grad': g, 'sample': smp,
+                'score_rejected': sb, 'grad_rejected': gb}
+
+    def copy(self, obj):
+        import copy
+        return copy.deepcopy(obj)
 
     def reference(self, full, free_idx):
         m = getattr(chi, rerr.CHI_CLASS[self.code])()
         s, g = m.compute_sensitivities(list(full), self.ybar, self.S, self.y)
         keep = [0, 1] + [2 + i for i in free_idx]
+        bad = list(full)
+        bad[free_idx[0]] = -abs(bad[free_idx[0]])
+        sb, gb = m.compute_sensitivities(bad, self.ybar, self.S, self.y)
         return {'ll': m.compute_log_likelihood(list(full), self.ybar, self.y),
                 'pw': m.compute_pointwise_ll(list(full), self.ybar, self.y),
                 'score': s, 'grad': np.asarray(g)[keep],
-                'sample': m.sample(list(full), self.ybar, n_samples=2, seed=3)}
+                'sample': m.sample(list(full), self.ybar, n_samples=2, seed=3),
+                'score_rejected': sb, 'grad_rejected': np.asarray(gb)[keep]}
 
 
 class MechAdapter(Adapter):
@@ -87,6 +103,9 @@ class MechAdapter(Adapter):
         self.kind = kind
         if kind == 'toy':
             self.names = ['p0', 'p1', 'p2']
+        elif kind == 'sbmlren':
+            # user-chosen names for two of the three parameters
+            self.names = ['A0', 'central.size', 'k_e']
         else:
             self.names = ['central.drug_amount', 'central.size',
                           'global.elimination_rate']
@@ -100,6 +119,9 @@ class MechAdapter(Adapter):
         m.set_administration('central')
         m.set_dosing_regimen(1.5, start=0.3, duration=0.4)
         m.set_outputs(['central.drug_amount', 'central.drug_concentration'])
+        if self.kind == 'sbmlren':
+            m.set_parameter_names({'central.drug_amount': 'A0',
+                                   'global.elimination_rate': 'k_e'})
         return m
 
     def make(self):
@@ -107,6 +129,13 @@ class MechAdapter(Adapter):
         if self.keep_sens:
             m.enable_sensitivities(True)
         return m
+
+    def copy(self, obj):
+        cp = obj.copy()
+        if self.keep_sens:
+            # documented: copying resets the sensitivity settings
+            cp.enable_sensitivities(True)
+        return cp
 
     def names_of(self, obj):
         return list(obj.parameters())
@@ -151,6 +180,10 @@ class PopAdapter(Adapter):
 
     def n_fixed(self, obj):
         return obj.n_fixed_parameters()
+
+    def copy(self, obj):
+        import copy
+        return copy.deepcopy(obj)
 
     def _obs(self, full):
         if not self.special:
@@ -205,15 +238,32 @@ class LLAdapter(Adapter):
 
     def observe(self, obj, x, free_idx):
         s, g = obj.evaluateS1(np.array(x))
-        return {'ll': obj(np.array(x)), 'pw': obj.compute_pointwise_ll(np.array(x)),
-                'score': s, 'grad': g}
+        out = {'ll': obj(np.array(x)), 'pw': obj.compute_pointwise_ll(np.array(x)),
+               'score': s, 'grad': g}
+        # rejected error-model value (last free parameter negative, if it is one)
+        if free_idx[-1] >= 2:
+            bad = np.array(x)
+            bad[-1] = -abs(bad[-1])
+            out['score_rejected'], out['grad_rejected'] = obj.evaluateS1(bad)
+        return out
 
     def reference(self, full, free_idx):
         m = self.make()
         s, g = m.evaluateS1(np.array(full))
-        return {'ll': m(np.array(full)),
-                'pw': m.compute_pointwise_ll(np.array(full)), 'score': s,
-                'grad': np.asarray(g)[free_idx]}
+        out = {'ll': m(np.array(full)),
+               'pw': m.compute_pointwise_ll(np.array(full)), 'score': s,
+               'grad': np.asarray(g)[free_idx]}
+        if free_idx[-1] >= 2:
+            bad = np.array(full)
+            bad[free_idx[-1]] = -abs(bad[free_idx[-1]])
+            sb, gb = m.evaluateS1(bad)
+            out['score_rejected'], out['grad_rejected'] = \
+                sb, np.asarray(gb)[free_idx]
+        return out
+
+    def copy(self, obj):
+        import copy
+        return copy.deepcopy(obj)
 
     def collapsed(self, obj):
         sub = obj._mechanistic_model, obj._error_models
@@ -336,7 +386,58 @@ def w_history(case):
     state = ['free'] * n
     viol = []
     x_other = [b * 1.05 for b in ad.base]
+    def check_state(o, st, tagname):
+        # full comparison of object `o`, believed to be in abstract state `st`
+        fr = [i for i in range(n) if st[i] == 'free']
+        if ad.names_of(o) != [ad.names[i] for i in fr]:
+            viol.append({'sub': tagname + '_names', 'message': 'names of the %s are '
+                         'not its own free parameters (%s)' % (tagname, kind),
+                         'history': history, 'expected': [ad.names[i] for i in fr],
+                         'observed': ad.names_of(o), 'behaviour': tagname})
+            return
+        if not fr:
+            return
+        fl = [x_other[i] if st[i] == 'free' else value_of(ad, i, st[i])
+              for i in range(n)]
+        xs = [x_other[i] for i in fr]
+        g_ = ad.observe(o, xs, fr, fl) if isinstance(ad, PopAdapter) \
+            else ad.observe(o, xs, fr)
+        e_ = ad.reference(fl, fr)
+        for k in e_:
+            if isinstance(e_[k], list) and e_[k] and isinstance(e_[k][0], str):
+                ok = list(g_[k]) == e_[k]
+            else:
+                ok = tol.allclose(np.asarray(g_[k], dtype=float),
+                                  np.asarray(e_[k], dtype=float), 1e-8, 1e-10)
+            if not ok:
+                viol.append({'sub': tagname + '_' + k, 'message': '%s of the %s of a '
+                             'reduced %s differs from the unfixed object at its own '
+                             'substituted vector' % (k, tagname, kind),
+                             'history': history, 'expected': e_[k],
+                             'observed': g_[k], 'behaviour': tagname})
+                return
+
     for op in history:
+        if op[0] in ('fork', 'forkswap'):
+            # duplicate the object; one of the two receives a fix/release call and
+            # is evaluated, the other one is carried on and must be unaffected
+            cp = ad.copy(obj)
+            st_cp = list(state)
+            if op[0] == 'forkswap':
+                obj, cp = cp, obj
+            d = {}
+            for i, tag in op[1][1]:
+                d[ad.names[i]] = None if tag == 'free' else value_of(ad, i, tag)
+                st_cp[i] = tag
+            try:
+                ad.fix(cp, d)
+            except ValueError as e:
+                if 'None of the parameters could be identified' in str(e) and \
+                        all(s_ != 'free' for s_ in st_cp):
+                    continue        # F-C08-all-fixed-sens, reported by the BFS
+                raise
+            check_state(cp, st_cp, 'copy' if op[0] == 'fork' else 'copied-from')
+            continue
         if op[0] == 'eval':
             free = [i for i in range(n) if state[i] == 'free']
             full = [x_other[i] if state[i] == 'free' else value_of(ad, i, state[i])
@@ -472,7 +573,8 @@ def ops_for(n, with_eval=True):
 
 WORKERS = {'pop_nids': w_pop_nids}
 ALL_KINDS = ['err:G', 'err:M', 'err:CM', 'err:LN', 'mech:toy', 'mech:sbml',
-             'mech:toy:sens', 'mech:sbml:sens', 'll',
+             'mech:toy:sens', 'mech:sbml:sens', 'mech:sbmlren', 'mech:sbmlren:sens',
+             'll',
              'pred', 'poppred', 'ctrl'] + ['pop:' + k for k in POP_SPECS]
 for _k in ALL_KINDS:
     WORKERS['fix_' + _k] = w_history
@@ -483,16 +585,49 @@ def make_search(kind, depth):
     n = len(adapter(kind).names)
 
     def run(workers):
-        return bfs(name, w_history, ops_for(n), depth, seeds=[[kind]],
-                   workers=workers,
-                   descr='BFS over fix/re-fix/release/eval histories on %s '
-                         '(%d parameters, %d abstract states)' % (kind, n, 3 ** n))
+        part, st = bfs(name, w_history, ops_for(n), depth, seeds=[[kind]],
+                       workers=workers,
+                       descr='BFS over fix/re-fix/release/eval histories on %s '
+                             '(%d parameters, %d abstract states), then from every '
+                             'abstract state: evaluate, apply every operation, '
+                             'observe' % (kind, n, 3 ** n))
+        # second pass: the BFS does not extend histories that end in a known state,
+        # so an evaluation (which leaves the abstract state unchanged) is never
+        # followed by further operations there. For every reached state A and every
+        # fix/release operation: path(A) + [eval] + [op] (+ [eval] + [op2] on the
+        # way back) -- every (state, operation) pair with an evaluation in between.
+        from ..core import engine
+        ops = [o for o in ops_for(n, with_eval=False)]
+        extra = []
+        can_copy = adapter(kind).copy is not None
+        for key, hist in sorted(part.paths.items(), key=lambda kv: len(kv[1])):
+            for op in ops:
+                extra.append(list(hist) + [['eval'], op])
+                if can_copy:
+                    # the object is duplicated in state A; the operation goes to
+                    # the duplicate (fork) or to the original (forkswap); the other
+                    # one is observed afterwards in state A
+                    extra.append(list(hist) + [['fork', op]])
+                    extra.append(list(hist) + [['forkswap', op]])
+        p2 = engine.Part(name, extra, w_history, part.descr)
+        st2 = engine.explore([p2], workers)[name]
+        for v in st2['violations']:
+            v['case_index'] += len(part.cases)
+        part.cases += extra
+        st['cases'] += st2['cases']
+        st['states'] |= st2['states']
+        st['transitions'] += st2['transitions']
+        st['outcomes'] |= st2['outcomes']
+        st['violations'] += st2['violations']
+        st['info']['eval_then_op_histories'] = len(extra)
+        return part, st
     return run
 
 
 def build(tier, seed):
     kinds = ALL_KINDS if tier == 'thorough' else [
-        'err:CM', 'mech:toy', 'mech:sbml', 'mech:sbml:sens', 'll', 'pred',
+        'err:CM', 'mech:toy', 'mech:sbml', 'mech:sbml:sens', 'mech:sbmlren:sens',
+        'll', 'pred',
         'poppred', 'ctrl',
         'pop:G1', 'pop:comp', 'pop:cov', 'pop:H1']
     depth = 12   # the searches stop at closure (no new abstract state)
